@@ -14,8 +14,10 @@ import (
 
 	"github.com/anishathalye/porcupine"
 
+	"github.com/sdcio/data-server/pkg/config"
 	"github.com/sdcio/data-server/pkg/datastore"
 	"github.com/sdcio/data-server/pkg/datastore/types"
+	"github.com/sdcio/data-server/pkg/server"
 	sdcpb "github.com/sdcio/sdc-protos/sdcpb"
 
 	"verifharness/internal/core"
@@ -577,6 +579,10 @@ func (c *c16) judge(ops []string, out *c16Outcome, sr *sched.Result, evs []sched
 
 func (c *c16) RunCase(w *core.Worker, idx int, seed uint64, res *core.CaseResult) {
 	if idx >= len(c.scenarios) {
+		if (idx-len(c.scenarios))%4 == 3 {
+			c.runServerLevel(w, idx-len(c.scenarios), seed, res)
+			return
+		}
 		c.runStress(w, idx-len(c.scenarios), seed, res)
 		return
 	}
@@ -653,4 +659,106 @@ func (c *c16) PostProcess(scratch string, agg *core.Aggregate) {
 		}
 		agg.Extra = append(agg.Extra, core.Finding{Verdict: core.Inconclusive, Key: "C16/race-detector-report/" + r.Key, Detail: fmt.Sprintf("%d reports\n%s", r.Count, text)})
 	}
+}
+
+// runServerLevel: the same slot seen through the gRPC handlers (pkg/server), where the server's own locks come on top of
+// the datastore's. A transaction A is open; a competing TransactionSet B waits for the datastore (its client gives it a
+// few seconds); then Confirm or Cancel of A arrives. The order of the answers decides, not their latency: B can only be
+// answered with success after A was resolved, so the Confirm / Cancel must be answered before B is, it must succeed,
+// and B must get the datastore afterwards. A Confirm / Cancel that is answered only after B gave up was held up by
+// nothing but the waiting Set.
+func (c *c16) runServerLevel(w *core.Worker, sidx int, seed uint64, res *core.CaseResult) {
+	rng := core.NewRng(seed)
+	ds := c.env.NewDS(fixture.DSOpts{})
+	defer ds.Close()
+	ctx := context.Background()
+	srv := server.NewVerif(ctx, &config.Config{DefaultTransactionTimeout: time.Hour}, c.env.Schema, c.env.Cache, map[string]*datastore.Datastore{ds.Name: ds.Datastore})
+	st := fixture.NewFakeStream[*sdcpb.GetDataResponse](ctx)
+	defer st.Cancel()
+	pctx := st.Context()
+	mkReq := func(id, owner, path, val string, to time.Duration) *sdcpb.TransactionSetRequest {
+		secs := int32(to / time.Second)
+		return &sdcpb.TransactionSetRequest{DatastoreName: ds.Name, TransactionId: id, Timeout: &secs,
+			Intents: []*sdcpb.TransactionIntent{{Intent: owner, Priority: 10, Update: []*sdcpb.Update{{Path: mustPb(path), Value: strTv(val)}}}}}
+	}
+	if _, err := srv.TransactionSet(pctx, mkReq("base", "oa", "/sys/descr", "v0", time.Hour)); err != nil {
+		res.Inconclusive("C16/server/setup", "%v", err)
+		return
+	}
+	if _, err := srv.TransactionConfirm(pctx, &sdcpb.TransactionConfirmRequest{DatastoreName: ds.Name, TransactionId: "base"}); err != nil {
+		res.Inconclusive("C16/server/setup", "%v", err)
+		return
+	}
+	rounds := 3
+	kinds := []string{}
+	for r := 0; r < rounds && len(res.Findings) == 0; r++ {
+		idA, idB := fmt.Sprintf("A%d", r), fmt.Sprintf("B%d", r)
+		if _, err := srv.TransactionSet(pctx, mkReq(idA, "oa", "/sys/descr", "a"+idA, time.Hour)); err != nil {
+			res.Inconclusive("C16/server/setup", "TransactionSet %s: %v", idA, err)
+			return
+		}
+		var clock atomic.Int64
+		var bDone, opDone, gDone int64
+		var bErr, opErr error
+		var wg sync.WaitGroup
+		bctx, bcancel := context.WithTimeout(pctx, 4*time.Second)
+		wg.Add(1)
+		go func() {
+			defer wg.Done()
+			_, bErr = srv.TransactionSet(bctx, mkReq(idB, "ob", "/sys/name", "b"+idB, time.Hour))
+			bDone = clock.Add(1)
+		}()
+		// let B reach its wait (if it has not yet, the round is merely less interesting)
+		time.Sleep(time.Duration(20+rng.Intn(60)) * time.Millisecond)
+		kind := []string{"confirm", "cancel"}[rng.Intn(2)]
+		kinds = append(kinds, kind)
+		wg.Add(1)
+		go func() {
+			defer wg.Done()
+			if kind == "confirm" {
+				_, opErr = srv.TransactionConfirm(pctx, &sdcpb.TransactionConfirmRequest{DatastoreName: ds.Name, TransactionId: idA})
+			} else {
+				_, opErr = srv.TransactionCancel(pctx, &sdcpb.TransactionCancelRequest{DatastoreName: ds.Name, TransactionId: idA})
+			}
+			opDone = clock.Add(1)
+		}()
+		// a reader that only needs the server's datastore table
+		wg.Add(1)
+		go func() {
+			defer wg.Done()
+			srv.GetDataStore(pctx, &sdcpb.GetDataStoreRequest{Name: ds.Name})
+			gDone = clock.Add(1)
+		}()
+		waited := make(chan struct{})
+		go func() { wg.Wait(); close(waited) }()
+		select {
+		case <-waited:
+		case <-time.After(30 * time.Second):
+			bcancel()
+			res.Violate("C16/server/deadlock", "%s of the open transaction %s, a waiting TransactionSet %s and a GetDataStore do not all return within 30 s (the waiting Set's client gave it 4 s)", kind, idA, idB)
+			return
+		}
+		bcancel()
+		res.Count("server_level_rounds", 1)
+		where := fmt.Sprintf("round %d: A=%s open, Set %s waiting (4 s), then %s(%s): %s answered %v as number %d, Set answered %v as number %d, GetDataStore as number %d", r, idA, idB, kind, idA, kind, opErr, opDone, bErr, bDone, gDone)
+		res.Tracef("%s", where)
+		switch {
+		case opErr != nil:
+			res.Violate("C16/server/"+kind+"-of-the-open-transaction-fails-while-a-set-is-waiting", "%s", where)
+		case bErr == nil && bDone < opDone:
+			res.Violate("C16/server/waiting-set-answered-before-the-open-transaction-was-resolved", "%s", where)
+		case bErr != nil && bDone < opDone:
+			res.Violate("C16/server/"+kind+"-held-up-until-the-waiting-set-gave-up", "%s", where)
+		case bErr != nil:
+			res.Violate("C16/server/waiting-set-fails-although-the-datastore-became-free", "%s", where)
+		}
+		// resolve B for the next round
+		if bErr == nil {
+			if _, err := srv.TransactionConfirm(pctx, &sdcpb.TransactionConfirmRequest{DatastoreName: ds.Name, TransactionId: idB}); err != nil && len(res.Findings) == 0 {
+				res.Violate("C16/server/confirm-of-the-next-transaction-fails", "%s; Confirm(%s): %v", where, idB, err)
+			}
+		}
+	}
+	res.Hash = core.HashOf(append([]string{"server-level", fmt.Sprint(sidx)}, kinds...)...)
+	res.NonTrivial = true
 }
